@@ -70,6 +70,10 @@ pub mod bytes {
         fn copy_to_bytes(&mut self, len: usize) -> (r: Bytes)
             requires old(self).bview().len() >= len,
             ensures r.data@ == old(self).bview().take(len as int), final(self).bview() == old(self).bview().skip(len as int);
+        // bytes: panics unless remaining() >= dst.len()
+        fn copy_to_slice(&mut self, dst: &mut [u8])
+            requires old(self).bview().len() >= old(dst)@.len(),
+            ensures final(dst)@ == old(self).bview().take(old(dst)@.len() as int), final(self).bview() == old(self).bview().skip(old(dst)@.len() as int);
         fn advance(&mut self, cnt: usize)
             requires old(self).bview().len() >= cnt,
             ensures final(self).bview() == old(self).bview().skip(cnt as int);
@@ -83,6 +87,7 @@ pub mod bytes {
         #[verifier::external_body] fn get_u32(&mut self) -> (r: u32) { unimplemented!() }
         #[verifier::external_body] fn get_u64(&mut self) -> (r: u64) { unimplemented!() }
         #[verifier::external_body] fn copy_to_bytes(&mut self, len: usize) -> (r: Bytes) { unimplemented!() }
+        #[verifier::external_body] fn copy_to_slice(&mut self, dst: &mut [u8]) { unimplemented!() }
         #[verifier::external_body] fn advance(&mut self, cnt: usize) { unimplemented!() }
     }
     impl Buf for Bytes {
@@ -94,6 +99,7 @@ pub mod bytes {
         #[verifier::external_body] fn get_u32(&mut self) -> (r: u32) { unimplemented!() }
         #[verifier::external_body] fn get_u64(&mut self) -> (r: u64) { unimplemented!() }
         #[verifier::external_body] fn copy_to_bytes(&mut self, len: usize) -> (r: Bytes) { unimplemented!() }
+        #[verifier::external_body] fn copy_to_slice(&mut self, dst: &mut [u8]) { unimplemented!() }
         #[verifier::external_body] fn advance(&mut self, cnt: usize) { unimplemented!() }
     }
     impl Buf for buf::Take<Bytes> {
@@ -105,6 +111,7 @@ pub mod bytes {
         #[verifier::external_body] fn get_u32(&mut self) -> (r: u32) { unimplemented!() }
         #[verifier::external_body] fn get_u64(&mut self) -> (r: u64) { unimplemented!() }
         #[verifier::external_body] fn copy_to_bytes(&mut self, len: usize) -> (r: Bytes) { unimplemented!() }
+        #[verifier::external_body] fn copy_to_slice(&mut self, dst: &mut [u8]) { unimplemented!() }
         #[verifier::external_body] fn advance(&mut self, cnt: usize) { unimplemented!() }
     }
 }
